@@ -48,3 +48,85 @@ package k8s
 //@         pts(pc.PassConns, q, n) == (old(pts(pc.PassConns, q, n)) || (old(pts(ruleConns, q, n)) && !old(pts(pc.AllowedConns, q, n)) && !old(pts(pc.DeniedConns, q, n))))
 //@         && pts(pc.AllowedConns, q, n) == old(pts(pc.AllowedConns, q, n)) && pts(pc.DeniedConns, q, n) == old(pts(pc.DeniedConns, q, n))))
 //@   ensures [C02] bad: (ruleAction != "Allow" && ruleAction != "Deny" && !(ruleAction == "Pass" && !banpRules)) ==> res != nil
+
+// two-state helpers (old = entry of the function under verification)
+//@ pred samePts(t *common.ConnectionSet) = forall q v1.Protocol, n int :: {iset(t.AllowedProtocols[q].Ports)[n]} {old(iset(t.AllowedProtocols[q].Ports)[n])}
+//@     pts(t, q, n) == old(pts(t, q, n))
+//@ pred ptsMinus2(t *common.ConnectionSet, a *common.ConnectionSet, b *common.ConnectionSet) = forall q v1.Protocol, n int ::
+//@     {iset(t.AllowedProtocols[q].Ports)[n]} {old(iset(t.AllowedProtocols[q].Ports)[n])}
+//@     pts(t, q, n) == (old(pts(t, q, n)) && !old(pts(a, q, n)) && !old(pts(b, q, n)))
+//@ pred ptsPlusMinus2(t *common.ConnectionSet, x *common.ConnectionSet, a *common.ConnectionSet, b *common.ConnectionSet) = forall q v1.Protocol, n int ::
+//@     {iset(t.AllowedProtocols[q].Ports)[n]} {old(iset(t.AllowedProtocols[q].Ports)[n])} {old(iset(x.AllowedProtocols[q].Ports)[n])}
+//@     pts(t, q, n) == (old(pts(t, q, n)) || (old(pts(x, q, n)) && !old(pts(a, q, n)) && !old(pts(b, q, n))))
+
+//@ pred sepPCPC(a *PolicyConnections, b *PolicyConnections) = sepPCCS(a, b.AllowedConns) && sepPCCS(a, b.DeniedConns) && sepPCCS(a, b.PassConns)
+
+//@ func (*PolicyConnections).CollectANPConns
+//@   requires wfPC(pc) && wfPC(newAdminPolicyConns) && sepPCPC(pc, newAdminPolicyConns) && disjPC(pc) && disjPC(newAdminPolicyConns)
+//@   modifies common.ConnectionSet.AllowAll { r | true }, common.ConnectionSet.AllowedProtocols { r | true }
+//@   modifies map[v1.Protocol]*common.PortSet { m | true }, common.PortSet.Ports { r | true }, map[string]bool { m | true }
+//@   ensures [C02] wf: wfPC(pc) && pc.AllowedConns == old(pc.AllowedConns) && pc.DeniedConns == old(pc.DeniedConns) && pc.PassConns == old(pc.PassConns)
+//@   ensures [C02] allowed: forall q v1.Protocol, n int ::
+//@         {iset(pc.AllowedConns.AllowedProtocols[q].Ports)[n]} {old(iset(pc.AllowedConns.AllowedProtocols[q].Ports)[n])} {old(iset(newAdminPolicyConns.AllowedConns.AllowedProtocols[q].Ports)[n])}
+//@         pts(pc.AllowedConns, q, n) == (old(pts(pc.AllowedConns, q, n)) || (old(pts(newAdminPolicyConns.AllowedConns, q, n))
+//@               && !old(pts(pc.DeniedConns, q, n)) && !old(pts(pc.PassConns, q, n))))
+//@   ensures [C02] denied: forall q v1.Protocol, n int ::
+//@         {iset(pc.DeniedConns.AllowedProtocols[q].Ports)[n]} {old(iset(pc.DeniedConns.AllowedProtocols[q].Ports)[n])} {old(iset(newAdminPolicyConns.DeniedConns.AllowedProtocols[q].Ports)[n])}
+//@         pts(pc.DeniedConns, q, n) == (old(pts(pc.DeniedConns, q, n)) || (old(pts(newAdminPolicyConns.DeniedConns, q, n))
+//@               && !old(pts(pc.AllowedConns, q, n)) && !old(pts(pc.PassConns, q, n))))
+//@   ensures [C02] passed: forall q v1.Protocol, n int ::
+//@         {iset(pc.PassConns.AllowedProtocols[q].Ports)[n]} {old(iset(pc.PassConns.AllowedProtocols[q].Ports)[n])} {old(iset(newAdminPolicyConns.PassConns.AllowedProtocols[q].Ports)[n])}
+//@         pts(pc.PassConns, q, n) == (old(pts(pc.PassConns, q, n)) || (old(pts(newAdminPolicyConns.PassConns, q, n))
+//@               && !old(pts(pc.AllowedConns, q, n)) && !old(pts(pc.DeniedConns, q, n))))
+//@   ensures [C02] disj: disjPC(pc)
+//@   after call 2:
+//@     assert s2: samePts(pc.AllowedConns) && samePts(pc.DeniedConns) && samePts(pc.PassConns)
+//@         && samePts(newAdminPolicyConns.AllowedConns) && samePts(newAdminPolicyConns.PassConns)
+//@         && ptsMinus2(newAdminPolicyConns.DeniedConns, pc.AllowedConns, pc.PassConns)
+//@   after call 4:
+//@     assert s4: samePts(pc.AllowedConns) && samePts(pc.DeniedConns) && samePts(pc.PassConns)
+//@         && samePts(newAdminPolicyConns.PassConns)
+//@         && ptsMinus2(newAdminPolicyConns.DeniedConns, pc.AllowedConns, pc.PassConns)
+//@         && ptsMinus2(newAdminPolicyConns.AllowedConns, pc.DeniedConns, pc.PassConns)
+//@   after call 6:
+//@     assert s6: samePts(pc.AllowedConns) && samePts(pc.DeniedConns) && samePts(pc.PassConns)
+//@         && ptsMinus2(newAdminPolicyConns.DeniedConns, pc.AllowedConns, pc.PassConns)
+//@         && ptsMinus2(newAdminPolicyConns.AllowedConns, pc.DeniedConns, pc.PassConns)
+//@         && ptsMinus2(newAdminPolicyConns.PassConns, pc.DeniedConns, pc.AllowedConns)
+//@   after call 7:
+//@     assert s7: samePts(pc.AllowedConns) && samePts(pc.PassConns)
+//@         && ptsPlusMinus2(pc.DeniedConns, newAdminPolicyConns.DeniedConns, pc.AllowedConns, pc.PassConns)
+//@         && ptsMinus2(newAdminPolicyConns.AllowedConns, pc.DeniedConns, pc.PassConns)
+//@         && ptsMinus2(newAdminPolicyConns.PassConns, pc.DeniedConns, pc.AllowedConns)
+//@   after call 8:
+//@     assert s8: samePts(pc.PassConns)
+//@         && ptsPlusMinus2(pc.DeniedConns, newAdminPolicyConns.DeniedConns, pc.AllowedConns, pc.PassConns)
+//@         && ptsPlusMinus2(pc.AllowedConns, newAdminPolicyConns.AllowedConns, pc.DeniedConns, pc.PassConns)
+//@         && ptsMinus2(newAdminPolicyConns.PassConns, pc.DeniedConns, pc.AllowedConns)
+
+//@ func (*PolicyConnections).CollectAllowedConnsFromNetpols
+//@   requires wfPC(pc) && wfPC(npConns) && sepPCPC(pc, npConns)
+//@   modifies common.ConnectionSet.AllowAll { r | true }, common.ConnectionSet.AllowedProtocols { r | true }
+//@   modifies map[v1.Protocol]*common.PortSet { m | true }, common.PortSet.Ports { r | true }, map[string]bool { m | true }
+//@   ensures [C02] wf: wfPC(pc) && pc.AllowedConns == old(pc.AllowedConns) && pc.DeniedConns == old(pc.DeniedConns) && pc.PassConns == old(pc.PassConns)
+//@   ensures [C02] allowed: forall q v1.Protocol, n int ::
+//@         {iset(pc.AllowedConns.AllowedProtocols[q].Ports)[n]} {old(iset(pc.AllowedConns.AllowedProtocols[q].Ports)[n])} {old(iset(npConns.AllowedConns.AllowedProtocols[q].Ports)[n])}
+//@         pts(pc.AllowedConns, q, n) == (old(pts(pc.AllowedConns, q, n)) || (old(pts(npConns.AllowedConns, q, n)) && !old(pts(pc.DeniedConns, q, n))))
+
+//@ func (*PolicyConnections).CollectConnsFromBANP
+//@   requires wfPC(pc) && wfPC(banpConns) && sepPCPC(pc, banpConns)
+//@   modifies pc.AllowedConns
+//@   modifies common.ConnectionSet.AllowAll { r | true }, common.ConnectionSet.AllowedProtocols { r | true }
+//@   modifies map[v1.Protocol]*common.PortSet { m | true }, common.PortSet.Ports { r | true }, map[string]bool { m | true }
+//@   ensures [C02] wf: wfPC(pc) && pc.DeniedConns == old(pc.DeniedConns) && pc.PassConns == old(pc.PassConns)
+//@   ensures [C02] allowed: forall q v1.Protocol, n int ::
+//@         {iset(pc.AllowedConns.AllowedProtocols[q].Ports)[n]} {old(iset(pc.DeniedConns.AllowedProtocols[q].Ports)[n])} {old(iset(banpConns.DeniedConns.AllowedProtocols[q].Ports)[n])}
+//@         pts(pc.AllowedConns, q, n) == (isPP(q, n) && !old(pts(pc.DeniedConns, q, n))
+//@               && !(old(pts(banpConns.DeniedConns, q, n)) && !old(pts(pc.AllowedConns, q, n))))
+
+//@ func (*PolicyConnections).IsEmpty
+//@   requires wfPC(pc)
+//@   ensures [C02] def: res == (!pc.AllowedConns.AllowAll && !pc.DeniedConns.AllowAll && !pc.PassConns.AllowAll
+//@         && (forall q v1.Protocol :: {q in pc.AllowedConns.AllowedProtocols} !(q in pc.AllowedConns.AllowedProtocols))
+//@         && (forall q v1.Protocol :: {q in pc.DeniedConns.AllowedProtocols} !(q in pc.DeniedConns.AllowedProtocols))
+//@         && (forall q v1.Protocol :: {q in pc.PassConns.AllowedProtocols} !(q in pc.PassConns.AllowedProtocols)))
